@@ -1562,6 +1562,73 @@ class Item:
         self.rewrite(self._stmt_start(k0), self._stmt_start(k0), lifted, "R3-lift-returned-closure")
         self.rewrite(cs, bc + 1, "vx_rc_%s(%s)" % (fn, ", ".join(state)), "R3-lift-returned-closure")
 
+    def r3_lift_from_fn(self, fn, k):
+        """the k-th `std::iter::from_fn(move || { BODY })` of fn: an iterator that IS its stateful closure (state = locals of the
+        function captured by value and mutated by BODY; `from_fn` calls it once per `next()`)  ==>  lambda lifting:
+          fn vx_lifted_<fn>_ff<k>([&self,] c1: &mut T1, .., v1: V1, ..) -> Option<Item> { BODY with every state variable ci read as (*ci) }
+        and, when the iterator is collected on the spot (`from_fn(..).collect::<Vec<_>>()`), the definition of collect over from_fn:
+          { let mut vx_out = Vec::new(); loop { let vx_o = vx_lifted_..(&mut c1, .., v1, ..);
+            match vx_o { Some(vx_x) => { vx_out.push(vx_x); } None => { break; } } } vx_out }
+        otherwise the from_fn expression becomes `vx_ff_<fn>(c1, .., v1, ..)` (a shim of the unit that carries the INITIAL state).
+        Captures and types come from `liftparams <fn>:ff<k>` (parameter list empty), as for the other lift shapes."""
+        key = "%s:ff%d" % (fn, k)
+        if key not in getattr(self, "lift", {}):
+            raise Undecided("R3 lift-from-fn: no liftparams for %s" % key)
+        pdecl, caps, rty, prefix, contract = self.lift[key]
+        k0, _, bo, end, _ = self.fn_span(fn)
+        hits = list(re.finditer(r"\b(?:std\s*::\s*)?iter\s*::\s*from_fn\s*\(\s*move\s*\|\s*\|\s*\{", self.m[bo:end]))
+        if len(hits) < k:
+            raise Undecided("LOST-ANCHOR: R3 lift-from-fn #%d in fn %s of %s" % (k, fn, self.where()))
+        h = hits[k - 1]
+        cs = bo + h.start()
+        bs = bo + h.end() - 1
+        bc = match_brace(self.m, bs)
+        close = bc + 1
+        while self.m[close].isspace():
+            close += 1
+        if self.m[close] != ")":
+            raise Undecided("R3 lift-from-fn: `)` expected after the closure at %s:%d" % (self.relpath, self.line_of(bc)))
+        capl = [c.strip() for c in split_top(caps) if c.strip()]
+        body, r4note = self._apply_lift_r4(key, self.text[bs:bc + 1])
+        mbody = mask(body)
+        for c in capl:
+            if c.startswith("="):
+                continue
+            cn = c.split(":")[0].strip()
+            out, last = [], 0
+            for mm in re.finditer(r"(?<![A-Za-z0-9_\.])%s(?![A-Za-z0-9_])" % re.escape(cn), mbody):
+                out.append(body[last:mm.start()]); out.append("(*%s)" % cn); last = mm.end()
+            out.append(body[last:])
+            body = "".join(out)
+            mbody = mask(body)
+        plist = (["&self"] if prefix == "self." else [])
+        alist, state = [], []
+        for c in capl:
+            if c.startswith("="):
+                decl, _, arg = c[1:].partition(":=")
+                plist.append(decl.strip()); alist.append((arg or decl.split(":")[0]).strip())
+            else:
+                cn = c.split(":")[0].strip()
+                plist.append("%s: &mut %s" % (cn, c.split(":", 1)[1].strip())); alist.append("&mut %s" % cn); state.append(cn)
+        lname = "vx_lifted_%s_ff%d" % (fn, k)
+        ls_ = getattr(self, "lift_start", {}).get(key)
+        if ls_:
+            body = body[:1] + "/*+vx*/" + ls_ + "/*-vx*/" + body[1:]
+        lifted = "fn %s%s(%s) -> (vx_r: %s)\n/*+vx*/%s/*-vx*/\n%s\n\n  " % (lname, getattr(self, "lift_generics", {}).get(key, ""), ", ".join(plist), rty, contract, body)
+        fstart = self._stmt_start(k0)
+        self.rewrite(fstart, fstart, lifted, "R3-lift-from-fn" + r4note)
+        mc = re.match(r"\s*\.\s*collect\s*::\s*<\s*Vec\s*<\s*_\s*>\s*>\s*\(\s*\)", self.m[close + 1:end])
+        if mc:
+            mi = re.match(r"Option\s*<(.*)>\s*$", rty.strip(), re.S)
+            if not mi:
+                raise Undecided("R3 lift-from-fn: the result type of liftparams %s is not Option<..>" % key)
+            self.rewrite(cs, close + 1 + mc.end(),
+                         "{ let mut vx_out: Vec<" + mi.group(1).strip() + "> = Vec::new();/*@pre*/\n    loop\n    /*@loop*/\n    {\n      let vx_o = %s%s(%s);/*@body*/\n"
+                         "      match vx_o { Some(vx_x) => { vx_out.push(vx_x); } None => { break; } }/*@tail*/\n    }\n    vx_out }"
+                         % (prefix, lname, ", ".join(alist)), "R3-lift-from-fn")
+        else:
+            self.rewrite(cs, close + 1, "vx_ff_%s(%s)" % (fn, ", ".join(a_[5:] if a_.startswith("&mut ") else a_ for a_ in alist)), "R3-lift-from-fn")
+
     def r3_for_index(self, fn, k, mode="ref"):
         """for X in RECV { BODY }  (RECV a slice/Vec/&Vec expression) ==> index while-loop;
         `continue` inside BODY is preceded by the index increment; BODY stays in place.
@@ -2105,6 +2172,10 @@ def build_unit(unit_path, repo=REPO):
                 # liftparams <fn> "<closure parameter: name: Type>" "<captured mutable variables: name: Type, ...>" "<result type>" "<call prefix>" <<< contract of the lifted fn >>>
                 it.lift = getattr(it, "lift", {})
                 it.lift[args[0]] = (args[1], args[2], args[3], args[4] if len(args) > 4 else "", payload or "")
+            elif name == "liftstart":
+                # liftstart <key> <<< ghost >>>: ghost text at the start of the lifted fn's body
+                it.lift_start = getattr(it, "lift_start", {})
+                it.lift_start[args[0]] = payload or ""
             elif name == "liftgenerics":
                 # liftgenerics <fn> "<'a, T: Bound>": generic parameters of the lifted fn
                 it.lift_generics = getattr(it, "lift_generics", {})
